@@ -103,6 +103,9 @@ func (c *Client) validateVirtualChannelSettlementProposal(
 	if prop.Final.Params.ID() != prop.Final.State.ID {
 		return errors.New("invalid parameters")
 	}
+	if len(prop.Final.Params.Parts) != prop.Final.State.NumParts() || len(prop.Final.Sigs) != len(prop.Final.Params.Parts) {
+		return errors.New("state or signatures do not match number of participants")
+	}
 
 	// Validate signatures.
 	for i, sig := range prop.Final.Sigs {
@@ -131,6 +134,10 @@ func (c *Client) validateVirtualChannelSettlementProposal(
 	subAlloc, containedBefore := parent.state().SubAlloc(prop.Final.Params.ID())
 	if !containedBefore || !subAlloc.BalancesEqual(prop.Final.State.Sum()) {
 		return errors.New("virtual channel not allocated")
+	}
+
+	if !validIndexMap(subAlloc.IndexMap, prop.Final.State.NumParts(), parent.state().NumParts()) {
+		return errors.New("index map: invalid length or index")
 	}
 
 	// Assert not contained after
